@@ -10,12 +10,14 @@ import hashlib, warnings, copy
 import numpy as np
 import vlib
 
-LEVEL_TEXT = ('partial. Lean 4 theorems over an effect-summary heap model whose per-function write sets are REGENERATED from the '
+LEVEL_TEXT = ('partial proof over a heuristic scan. PROVED: the composition of per-call effect summaries over unbounded histories — '
+              'Lean 4 theorems over an effect-summary heap model whose per-function write sets are REGENERATED from the '
               'source by an effect-site scan: for every history a caller-owned cell changes only under a call documented as '
               'in-place on that argument (induction over the history + decidable check of the generated table against the '
               'documented in-place list); seeded functions never touch the global generator; the _dft2_coords cache always holds '
-              'arange(n)-floor(n/2) because nothing writes it, so results are history independent. That the summaries are right '
-              'about NumPy-level behaviour is sampled: random histories on frozen, byte-snapshotted caller arrays.')
+              'arange(n)-floor(n/2) because nothing writes it, so results are history independent. SAMPLED, not proved: that each '
+              'summary (a row of the scan) is right about what NumPy/Python actually do — random histories on frozen, byte-snapshotted '
+              'caller arrays and objects, op labels taken from the function objects actually run; the scan\'s alias rule is a heuristic.')
 LEVEL_NOTE = ('partial: the proof shows that the effect summaries compose over unbounded histories and stay inside the documented '
               'in-place list; that each summary is faithful is sampled by the correspondence; the scan\'s alias rule is a trusted '
               'heuristic. Plane-state confluence is sampled only.')
@@ -40,7 +42,24 @@ UNPROVEN = ['each effect summary (row of Gen/Effects.lean) is faithful to the Nu
 ASSUMPTIONS = ['histories consist of public API functions known to the scan']
 
 # ------------------------------------------------------------------------------------------ generation
+FOCI = ['mixed', 'optics', 'fourier', 'detector', 'spectrum', 'tilt', 'resample', 'misc']
+def _uncovered_public_rows():
+    """public functions of the generated effect table that no catalogue entry calls directly (their summaries are not sampled by a
+    direct call; many are still reached through other calls)"""
+    import re, os
+    try:
+        rows = re.findall(r'fn := "([^"]+)", pub := true', open(os.path.join(vlib.LEAN, 'LentilVerif', 'Gen', 'Effects.lean')).read())
+        hints = set(re.findall(r"op\('([A-Za-z0-9_.]+)'", open(__file__).read()))
+    except OSError:
+        return []
+    # a hint names the attribute looked up on the receiver; an inherited method is accounted to the class that defines it
+    leaf = {h.split('.')[-1] for h in hints}
+    return sorted(r for r in rows if r not in hints and not (r.split('.')[-1] in leaf and r.count('.') == 2))
+
 def generate(rng, tier):
+    unc = _uncovered_public_rows()
+    note = 'public functions with no direct catalogue call (effect summary never sampled directly): ' + ', '.join(unc)
+    UNPROVEN[:] = [u for u in UNPROVEN if not u.startswith('public functions with no direct catalogue call')] + [note]
     n = {'quick': 60, 'thorough': 1500, 'search': 300}[tier]
     out = []
     for k in range(n):
@@ -49,7 +68,7 @@ def generate(rng, tier):
                         'n': int(rng.integers(10, 17)), 'm': int(rng.integers(12, 19))})
         else:
             out.append({'kind': 'history', 'hseed': int(rng.integers(0, 2**31)), 'length': int(rng.integers(5, 41)),
-                        'focus': ['mixed', 'optics', 'fourier', 'detector', 'spectrum', 'tilt'][(k - k // 6) % 6]})
+                        'focus': FOCI[(k - k // 6) % len(FOCI)]})
     return out
 
 def signature(c): return f"{c['kind']} {c.get('hseed', c.get('which'))} {c.get('length', '')} {c.get('focus', c.get('segments'))}"
@@ -83,7 +102,9 @@ def _digest(o, world=None):
     elif isinstance(o, lentil.Wavefront):
         add([o.wavelength, None if o.pixelscale is None else tuple(o.pixelscale), str(o.ptype), o.focal_length, tuple(o.shape),
              [[np.asarray(f.data), tuple(int(v) for v in f.offset), [(float(t.x), float(t.y)) for t in f.tilt]] for f in o.data]])
-    elif isinstance(o, tuple): add([_digest(x) for x in o])
+    elif isinstance(o, lentil.field.Field):
+        add([np.asarray(o.data), tuple(int(v) for v in o.offset), [(float(t.x), float(t.y)) for t in o.tilt]])
+    elif isinstance(o, (tuple, list)): add([_digest(x) for x in o])
     else: add(o)
     return h.hexdigest()[:16]
 
@@ -134,17 +155,131 @@ def _build_world(rng):
     return w
 
 PX = 1e-3
+
+def _resolve_label(hint, selfobj=None):
+    """op label = module.qualname of the function object Python will actually run for this call (method resolution through the
+    receiver's class, constructors through the MRO, re-exported functions through their defining module); `hint` only names
+    the attribute to look up"""
+    import importlib, inspect
+    parts = hint.split('.')
+    if selfobj is not None and len(parts) == 3:
+        f = inspect.getattr_static(type(selfobj), parts[2], None)
+        for klass in type(selfobj).__mro__:
+            if parts[2] in vars(klass): f = vars(klass)[parts[2]]; break
+    else:
+        obj = importlib.import_module('lentil.' + parts[0])
+        for a in parts[1:]:
+            if isinstance(obj, type) and a == '__init__':
+                for klass in obj.__mro__:
+                    if '__init__' in vars(klass): obj = vars(klass)['__init__']; break
+            else: obj = getattr(obj, a)
+        f = obj
+    if isinstance(f, property): f = f.fset or f.fget
+    f = getattr(f, '__func__', f)
+    mod = getattr(f, '__module__', None) or ''
+    if not mod.startswith('lentil'): return hint
+    return mod.replace('lentil.', '', 1) + '.' + f.__qualname__
 DU_FFT = 650e-9 * 10 * 2 / (PX * 32)     # output sampling for which the padded FFT grid is 32 x 32
 def _catalogue(w, rng, focus):
     """one randomly chosen op: dict(fn, bind {slot: cell}, call -> result, inplace {cells}, rng_ok, pure, reskind)"""
     import lentil
     D = lentil.detector
     ops = []
-    def op(fn, bind, call, inplace=(), rng_ok=False, pure=True, reskind=None, weight=1, returns_arg=False):
-        ops.append(dict(fn=fn, bind=bind, call=call, inplace=set(inplace), rng_ok=rng_ok, pure=pure, reskind=reskind, weight=weight,
+    def op(fn, bind, call, inplace=(), rng_ok=False, pure=True, reskind=None, weight=1, returns_arg=False, flag=None):
+        fn = fn if fn.startswith('caller.') else _resolve_label(fn, w.cells[bind['self']] if 'self' in bind else None)
+        ops.append(dict(fn=fn, flag=flag, bind=bind, call=call, inplace=set(inplace), rng_ok=rng_ok, pure=pure, reskind=reskind, weight=weight,
                         returns_arg=returns_arg))
     C = w.cells
     a, o, m = w.pick(rng, 'amp'), w.pick(rng, 'opd'), w.pick(rng, 'mask')
+    if focus == 'misc':
+        # the rest of the public API that takes caller arrays/objects: each call once in a while, on frozen snapshotted arguments
+        import sys as _sys
+        U, Z, H, F = lentil.util, _sys.modules['lentil.zernike'], lentil.helper, lentil.field
+        im = w.pick(rng, 'img'); mk = w.pick(rng, 'mask', lambda x, i: x.ndim == 2); ok_ = w.pick(rng, 'opd'); cx = w.pick(rng, 'cx')
+        op('util.centroid', {'img': im}, lambda: U.centroid(np.abs(C[im])), reskind='res')
+        op('util.window', {'img': im}, lambda: U.window(C[im], shape=(4, 4)), reskind='res')
+        op('util.boundary', {'x': mk}, lambda: U.boundary(C[mk]), reskind='res')
+        op('util.subarray', {'a': im}, lambda: U.subarray(C[im], (3, 4), shift=(1, -1)), reskind='res')
+        op('helper.boundary_slice', {'x': mk}, lambda: H.boundary_slice(C[mk]), reskind='res')
+        op('helper.mesh', {}, lambda: H.mesh((5, 6)), reskind='res')
+        op('helper.gaussian2d', {}, lambda: H.gaussian2d(5, 1.0), reskind='res')
+        op('shape.circle', {}, lambda: lentil.circle((12, 11), 4, shift=(1, 0)), reskind='res')
+        op('shape.hexagon', {}, lambda: lentil.hexagon((12, 12), 5), reskind='res')
+        op('shape.rectangle', {}, lambda: lentil.rectangle((12, 12), 5, 3), reskind='res')
+        op('segmented.hex_segments', {}, lambda: lentil.hex_segments(rings=1, seg_radius=6, seg_gap=1), reskind='res')
+        modes = [int(x) for x in rng.choice(np.arange(1, 9), size=3, replace=False)]
+        op('zernike.zernike_basis', {'mask': mk}, lambda: Z.zernike_basis(C[mk], modes), reskind='res')
+        op('zernike.zernike_fit', {'opd': ok_, 'mask': mk}, lambda: Z.zernike_fit(C[ok_], C[mk], modes), reskind='res', weight=2)
+        op('zernike.zernike_remove', {'opd': ok_, 'mask': mk}, lambda: Z.zernike_remove(C[ok_], C[mk], modes), reskind='res', weight=2)
+        op('zernike.zernike_compose', {'mask': mk}, lambda: Z.zernike_compose(C[mk], [0, 1e-8, 2e-8, -1e-8]), reskind='res')
+        op('zernike.zernike_coordinates', {'mask': mk}, lambda: Z.zernike_coordinates(C[mk]), reskind='res')
+        op('wfe.translation_defocus', {'mask': mk}, lambda: lentil.translation_defocus(C[mk], 10.0, 1e-4), reskind='res')
+        op('detector.rule07_dark_current', {}, lambda: lentil.detector.rule07_dark_current(110.0, 5.3e-6, 18e-6, shape=(3, 4), fpn_factor=0.2, seed=3), reskind='res')
+        qv = w.pick(rng, 'qe'); wv3 = w.pick(rng, 'wave')
+        op('detector.qe_asarray', {'qe': qv, 'wave': wv3}, lambda: lentil.detector.qe_asarray(C[qv], C[wv3], 'nm'), reskind='res')
+        off = [int(rng.integers(-3, 4)), int(rng.integers(-3, 4))]
+        op('field.Field.__init__', {'data': cx}, lambda: F.Field(C[cx], offset=off), reskind='field', weight=3)
+        f1, f2 = w.pick(rng, 'field'), w.pick(rng, 'field')
+        if f1 is not None:
+            op('field.Field.__mul__', {'self': f1, 'other': f2}, lambda: C[f1] * C[f2], reskind='res', weight=2)
+            op('field.merge', {'a': f1, 'b': f2}, lambda: F.merge(C[f1], C[f2], enforce_overlap=False), reskind='res')
+            op('field.reduce', {'fields': f1}, lambda: F.reduce([C[f1], C[f2]]) if f1 != f2 else F.reduce([C[f1]]), reskind='res')
+            op('field.overlap', {'fields': f1}, lambda: F.overlap([C[f1], C[f2]]), reskind='res')
+            op('field.boundary', {'fields': f1}, lambda: F.boundary([C[f1], C[f2]]), reskind='res')
+            oc2 = w.pick(rng, 'out_cx')
+            op('field.insert', {'field': f1, 'out': oc2}, lambda: F.insert(C[f1], C[oc2]), inplace=[oc2], pure=False, returns_arg=True)
+        a2, o2b = w.pick(rng, 'amp'), w.pick(rng, 'opd')
+        op('plane.Image.__init__', {'amplitude': a2}, lambda: lentil.Image(amplitude=C[a2], pixelscale=5e-6), reskind='plane')
+        op('plane.Pupil.__init__', {'amplitude': a2, 'opd': o2b}, lambda: lentil.Pupil(amplitude=C[a2], opd=C[o2b], pixelscale=PX, focal_length=10), reskind='plane', weight=2)
+        pm = w.pick(rng, 'plane', lambda x, i: x.shape == (N, N) and x.pixelscale is not None)
+        if pm is not None:
+            PM = C[pm]
+            op('plane.Plane.ptt_vector', {'self': pm}, lambda: PM.ptt_vector, reskind='res')
+            op('plane.Plane.global_mask', {'self': pm}, lambda: np.array(PM.global_mask), reskind='res')
+            op('plane.Plane.diameter', {'self': pm}, lambda: PM.diameter, reskind='res')
+            def setamp(): PM.amplitude = C[a2]
+            op('plane.Plane.amplitude', {'self': pm, 'value': a2}, setamp, inplace=[pm], pure=False, returns_arg=True)
+        R2 = lentil.radiometry
+        op('radiometry.planck_radiance', {}, lambda: R2.planck_radiance(np.array([500., 600., 700.]), 5000.0), reskind='res')
+        op('radiometry.planck_exitance', {}, lambda: R2.planck_exitance(np.array([500., 600., 700.]), 5000.0), reskind='res')
+        sw2 = w.pick(rng, 'swave'); sv2 = [i for i, k in enumerate(w.kind) if k == 'svalue' and C[i].size == C[sw2].size][0]
+        op('radiometry.Spectrum.__init__', {'wave': sw2, 'value': sv2}, lambda: R2.Spectrum(C[sw2], C[sv2], waveunit='nm'), reskind='spec', weight=3)
+        sp = w.pick(rng, 'spec'); sq = w.pick(rng, 'spec')
+        if sp is not None:
+            SP, SQ = C[sp], C[sq]
+            op('radiometry.Spectrum.__sub__', {'self': sp, 'other': sq}, lambda: SP - SQ, reskind='spec')
+            op('radiometry.Spectrum.__truediv__', {'self': sp}, lambda: SP / 2.0, reskind='spec')
+            op('radiometry.Spectrum.__pow__', {'self': sp}, lambda: SP ** 2, reskind='spec')
+            op('radiometry.Spectrum.asarray', {'self': sp}, lambda: SP.asarray(), reskind='res')
+            if np.max(SP.value) > 0: op('radiometry.Spectrum.ends', {'self': sp}, lambda: SP.ends(), reskind='res')
+            lo_, hi_ = float(np.min(SP.wave)), float(np.max(SP.wave))
+            op('radiometry.Spectrum.crop', {'self': sp}, lambda: SP.crop(lo_ + 0.1 * (hi_ - lo_), hi_ - 0.1 * (hi_ - lo_)), inplace=[sp], pure=False, returns_arg=True)
+            if np.max(SP.value) > 0: op('radiometry.Spectrum.trim', {'self': sp}, lambda: SP.trim(), inplace=[sp], pure=False, returns_arg=True)
+            op('radiometry.Spectrum.resample', {'self': sp}, lambda: SP.resample(np.linspace(lo_, hi_, 6), waveunit=str(SP.waveunit)), inplace=[sp], pure=False, returns_arg=True)
+    if focus == 'resample':
+        # results of rescale/resample/copy/fit_tilt are worked on in place afterwards: the plane they came from must not notice
+        op('plane.Pupil.__init__', {'amplitude': a, 'opd': o, 'mask': m},
+           lambda: lentil.Pupil(amplitude=C[a], opd=C[o], mask=C[m], pixelscale=PX, focal_length=10), reskind='plane', weight=2)
+        op('plane.Pupil.__init__', {'amplitude': a, 'mask': m},
+           lambda: lentil.Pupil(amplitude=C[a], opd=0.0, mask=C[m], pixelscale=PX, focal_length=10), reskind='plane', weight=2)
+        pl = w.pick(rng, 'plane', lambda x, i: x.ptype == lentil.pupil)
+        if pl is not None:
+            PL = C[pl]
+            sc = [0.5, 1.0, 1.5, 2.0][int(rng.integers(0, 4))]
+            op('plane.Plane.fit_tilt', {'self': pl}, lambda: PL.fit_tilt(), reskind='plane', weight=2, flag=False)
+            op('plane.Plane.copy', {'self': pl}, lambda: PL.copy(), reskind='plane')
+            if max(PL.shape) <= 4 * N and min(PL.shape) * sc >= 6:
+                op('plane.Plane.rescale', {'self': pl}, lambda: PL.rescale(sc), reskind='plane', weight=4)
+                op('plane.Plane.resample', {'self': pl}, lambda: PL.resample(PL.pixelscale[0] / sc), reskind='plane', weight=2)
+            arrs = [i for i, x in enumerate(C) if isinstance(x, np.ndarray) and (x is PL.opd or x is PL.amplitude)]
+            if isinstance(PL.opd, np.ndarray) and PL.opd.flags.writeable:
+                if PL.opd.ndim == 2 and PL.opd.shape == PL.shape:
+                    op('plane.Plane.fit_tilt', {'self': pl}, lambda: PL.fit_tilt(inplace=True), inplace=[pl] + arrs, pure=False, returns_arg=True, weight=4, flag=True)
+                def bump():
+                    x = PL.opd; x += 1e-9
+                op('caller.opd_iadd', {'self': pl}, bump, inplace=[pl] + arrs, pure=False, returns_arg=True, weight=3)
+            def addtilt(): PL.tilt.append(lentil.Tilt(x=1e-6, y=-2e-6))
+            op('caller.tilt_append', {'self': pl}, addtilt, inplace=[pl], pure=False, returns_arg=True, weight=2)
     if focus == 'tilt':
         # wavefronts that carry tilt, reused as the operand of several Tilt planes and propagated afterwards
         op('plane.Pupil.__init__', {'amplitude': a, 'opd': o, 'mask': m},
@@ -160,7 +295,7 @@ def _catalogue(w, rng, focus):
         pf = w.pick(rng, 'plane', lambda x, i: x.ptype == lentil.pupil)
         if focus == 'tilt' and pf is not None:
             PF = C[pf]
-            op('plane.Plane.fit_tilt', {'self': pf}, lambda: PF.fit_tilt(), reskind='plane', weight=3)
+            op('plane.Plane.fit_tilt', {'self': pf}, lambda: PF.fit_tilt(), reskind='plane', weight=3, flag=False)
             wfn = w.pick(rng, 'wf', lambda x, i: x.ptype == lentil.none or (x.ptype == lentil.pupil and x.shape in ((), PF.shape) and len(x.data) <= 2))
             if wfn is not None: op('plane.Plane.multiply', {'self': pf, 'wavefront': wfn}, lambda: C[wfn] * PF, reskind='wf', weight=4)
             wfp = w.pick(rng, 'wf', lambda x, i: x.ptype == lentil.pupil)
@@ -176,15 +311,16 @@ def _catalogue(w, rng, focus):
         if p is not None:
             P = C[p]
             op('plane.Plane.copy', {'self': p}, lambda: P.copy(), reskind='plane')
-            op('plane.Plane.fit_tilt', {'self': p}, lambda: P.fit_tilt(), reskind='plane', weight=2)
+            op('plane.Plane.fit_tilt', {'self': p}, lambda: P.fit_tilt(), reskind='plane', weight=2, flag=False)
             if isinstance(P.opd, np.ndarray) and P.opd.flags.writeable and P.opd.ndim == 2:
                 refs = [i for i, x in enumerate(C) if isinstance(x, np.ndarray) and (x is P.opd or x is P.amplitude)]
-                op('plane.Plane.fit_tilt', {'self': p}, lambda: P.fit_tilt(inplace=True), inplace=[p] + refs, pure=False, returns_arg=True, weight=3)
+                op('plane.Plane.fit_tilt', {'self': p}, lambda: P.fit_tilt(inplace=True), inplace=[p] + refs, pure=False, returns_arg=True, weight=3, flag=True)
             o2 = w.pick(rng, 'opd')
             def setopd(): P.opd = C[o2]
             if P.shape == (N, N): op('plane.Plane.opd', {'self': p, 'value': o2}, setopd, inplace=[p], pure=False, returns_arg=True)
             s = [0.5, 1.0, 1.5, 2.0][int(rng.integers(0, 4))]
-            op('plane.Plane.rescale', {'self': p}, lambda: P.rescale(s), reskind='plane')
+            if 6 <= min(P.shape) * s and max(P.shape) * s <= 6 * N:      # (a plane shrunk until its mask vanishes cannot be sliced)
+                op('plane.Plane.rescale', {'self': p}, lambda: P.rescale(s), reskind='plane')
             wfm = w.pick(rng, 'wf', lambda x, i: x.ptype == lentil.none or (x.ptype == lentil.pupil and len(x.data) <= 2 and x.shape in ((), P.shape)))
             if wfm is not None and P.ptype == lentil.pupil:
                 op('plane.Plane.multiply', {'self': p, 'wavefront': wfm}, lambda: C[wfm] * P, reskind='wf', weight=3)
@@ -308,11 +444,11 @@ def _run_history(c):
         after = w.snap()
         changed = [i for i, (x, y) in enumerate(zip(before, after)) if x != y]
         rescell = None
-        if exc is None and o['reskind'] in ('plane', 'wf', 'spec', 'tiltplane') and w.find(res) is None:
+        if exc is None and o['reskind'] in ('plane', 'wf', 'spec', 'tiltplane', 'field') and w.find(res) is None:
             rescell = w.add(res, o['reskind'])
         argd = {s: before[i] for s, i in o['bind'].items()}
         if exc is None and o['pure']: done.append((o, {s: _digest(w.cells[i]) for s, i in o['bind'].items()}, _digest(res)))
-        steps.append({'fn': o['fn'], 'bind': [[s, i] for s, i in o['bind'].items()], 'res': rescell, 'changed': changed,
+        steps.append({'fn': o['fn'], 'inplace_flag': o['flag'], 'bind': [[s, i] for s, i in o['bind'].items()], 'res': rescell, 'changed': changed,
                       'allowed': sorted(o['inplace']), 'rng_changed': st0 != st1, 'rng_ok': o['rng_ok'], 'exc': exc,
                       'frozen': [bool(w.frozen[i]) for i in changed], 'kinds': [w.kind[i] for i in changed]})
     return {'steps': steps, 'ncells': len(w.cells)}
@@ -370,6 +506,21 @@ def _witness(c):
         i1 = lentil.propagate_dft(w1, pixelscale=5e-6, shape=32, oversample=2).intensity
         return {'untouched': _digest(w1) == d0 and np.array_equal(i0, i1) and _digest(w3) == d3 and len(p.tilt) == 1,
                 'what': 'Wavefront * Tilt on a wavefront that already carries tilt'}
+    if c['which'] == 'rescale-result-mutated':
+        yy, xx = np.mgrid[0:16, 0:16]
+        amp = ((yy - 8) ** 2 + (xx - 8) ** 2 <= 36).astype(float)
+        ok = True
+        for opd in (2e-7 * (xx - 8) / 8 * amp, 0.0):
+            p = lentil.Pupil(amplitude=amp, opd=opd, pixelscale=1e-3, focal_length=10)
+            if np.ndim(opd): p.fit_tilt(inplace=True)
+            d0 = _digest(p)
+            for q in (p.rescale(2), p.resample(2e-3)):
+                if np.ndim(q.opd) == 2: q.fit_tilt(inplace=True)
+                x = q.opd; x += 1e-9
+                q.tilt.append(lentil.Tilt(x=1e-6, y=0))
+                ok = ok and q.tilt is not p.tilt and not np.shares_memory(np.asarray(q.opd), np.asarray(p.opd)) and not np.shares_memory(np.asarray(q.amplitude), np.asarray(p.amplitude))
+            ok = ok and _digest(p) == d0
+        return {'untouched': bool(ok), 'what': 'in-place work on the result of Plane.rescale/resample'}
     if c['which'] == 'plane-mask-binarised':
         m = np.array([[0., 2.], [3., 0.]]); lentil.Plane(mask=m)
         return {'untouched': m.tolist() == [[0., 2.], [3., 0.]], 'what': 'Plane(mask=m)'}
@@ -390,7 +541,8 @@ def impl(c):
 # ------------------------------------------------------------------------------------------ model
 def requests(c, io):
     if c['kind'] != 'history': return []
-    ops = [{'fn': s['fn'], 'bind': s['bind'], 'res': s['res']} for s in io['steps'] if 'fn' in s]
+    ops = [{'fn': s['fn'], 'bind': s['bind'], 'res': s['res'], **({'inplace': s['inplace_flag']} if s.get('inplace_flag') is not None else {})}
+           for s in io['steps'] if 'fn' in s]
     return [{'op': 'heap.run', 'ops': ops}]
 
 def compare(c, io, mo):
@@ -400,7 +552,7 @@ def compare(c, io, mo):
     real = [s for s in io['steps'] if 'fn' in s]
     if len(real) != len(m['steps']): return 'step count differs'
     for k, (s, a) in enumerate(zip(real, m['steps'])):
-        if not a['known']: return f"step {k}: {s['fn']} is not a public function of the generated effect table"
+        if not a['known'] and not s['fn'].startswith('caller.'): return f"step {k}: {s['fn']} is not a public function of the generated effect table"
         extra = [i for i in s['changed'] if i not in a['may']]
         if extra: return f"step {k}: {s['fn']} changed cells {extra} ({[s['kinds'][s['changed'].index(i)] for i in extra]}); the effect table allows only {a['may']}"
         if s['rng_changed'] and not a['rng']: return f"step {k}: {s['fn']} changed the global generator; the effect table says it does not use it"
